@@ -51,6 +51,10 @@ func c04lent(c *wk.Ctx, i int, rng *rand.Rand) {
 	pk := newParking(rng.Int63(), 30+rng.Intn(60))
 	defer pk.close()
 	helpers := make([]*svc.HelperImpl, nDesk)
+	// one plan in three lends ONE object to every desk: the server then holds several forwarders for the
+	// same client-hosted object on the same connection, and their calls are in flight together
+	shared := rng.Intn(3) == 0
+	var sharedProxy probe.HelperProxy
 	var lenderDesks []probe.DeskProxy
 	for try := 0; ; try++ {
 		p, err := lender.Proxy("Desk", 1)
@@ -74,12 +78,18 @@ func c04lent(c *wk.Ctx, i int, rng *rand.Rand) {
 	}
 	proxyService := lenderDesks[0].Proxy().ProxyService(lender)
 	for k := 0; k < nDesk; k++ {
-		helpers[k] = svc.NewHelper(fmt.Sprintf("h%d", k))
-		helpers[k].Gate = pk.gate
-		hp, err := probe.CreateHelper(lender, proxyService, helpers[k])
-		if err != nil {
-			c.Inconclusive("lent", i, "CreateHelper: "+err.Error())
-			return
+		var hp probe.HelperProxy
+		if shared && k > 0 {
+			helpers[k], hp = helpers[0], sharedProxy
+		} else {
+			helpers[k] = svc.NewHelper(fmt.Sprintf("h%d", k))
+			helpers[k].Gate = pk.gate
+			hp, err = probe.CreateHelper(lender, proxyService, helpers[k])
+			if err != nil {
+				c.Inconclusive("lent", i, "CreateHelper: "+err.Error())
+				return
+			}
+			sharedProxy = hp
 		}
 		if err := lenderDesks[k].Keep(hp); err != nil {
 			c.Viol("lent", i, "lend=error", fmt.Sprintf("lending a client-hosted object to desk %d failed: %v", k, err), nil)
@@ -158,7 +168,11 @@ func c04lent(c *wk.Ctx, i int, rng *rand.Rand) {
 		}
 		return
 	}
-	detail := map[string]interface{}{"desks": nDesk, "caller_sessions": nSess, "rounds": rounds}
+	detail := map[string]interface{}{"desks": nDesk, "caller_sessions": nSess, "rounds": rounds, "one_object_lent_to_every_desk": shared}
+	cfg := "lent"
+	if shared {
+		cfg = "lent-shared"
+	}
 	ok, errs := 0, 0
 	for _, r := range recs {
 		d := map[string]interface{}{"plan": detail, "desk": r.desk, "token": r.token}
@@ -166,25 +180,25 @@ func c04lent(c *wk.Ctx, i int, rng *rand.Rand) {
 			// an error is an allowed outcome (e.g. load shedding "consumer blocked"): at most one execution
 			errs++
 			for k, h := range helpers {
-				if n := h.ExecCount(r.token); n > 1 || (k != r.desk && n != 0) {
-					c.Viol("lent", i, "exec=more-than-once/lent", fmt.Sprintf("a failed call relayed through desk %d ran the helper of desk %d %d times", r.desk, k, n), d)
+				if n := h.ExecCount(r.token); n > 1 || (h != helpers[r.desk] && n != 0) {
+					c.Viol("lent", i, "exec=more-than-once/"+cfg, fmt.Sprintf("a failed call relayed through desk %d ran the helper of desk %d %d times", r.desk, k, n), d)
 					return
 				}
 			}
 			continue
 		}
-		if want := svc.HF(fmt.Sprintf("h%d", r.desk), r.token, r.arg); r.out != want {
-			c.Viol("lent", i, "result=not-own/lent", fmt.Sprintf("relay through desk %d returned %q, its own helper computes %q", r.desk, clipS(r.out), clipS(want)), d)
+		if want := svc.HF(helpers[r.desk].Name, r.token, r.arg); r.out != want {
+			c.Viol("lent", i, "result=not-own/"+cfg, fmt.Sprintf("relay through desk %d returned %q, its own helper computes %q", r.desk, clipS(r.out), clipS(want)), d)
 			return
 		}
 		for k, h := range helpers {
 			n := h.ExecCount(r.token)
-			if k == r.desk && n != 1 {
-				c.Viol("lent", i, fmt.Sprintf("exec=%d-for-success/lent", n), fmt.Sprintf("the helper of desk %d ran %d times for one successful call", k, n), d)
+			if h == helpers[r.desk] && n != 1 {
+				c.Viol("lent", i, fmt.Sprintf("exec=%d-for-success/%s", n, cfg), fmt.Sprintf("the helper of desk %d ran %d times for one successful call", k, n), d)
 				return
 			}
-			if k != r.desk && n != 0 {
-				c.Viol("lent", i, "exec=other-object/lent", fmt.Sprintf("a call relayed through desk %d ran the helper of desk %d", r.desk, k), d)
+			if h != helpers[r.desk] && n != 0 {
+				c.Viol("lent", i, "exec=other-object/"+cfg, fmt.Sprintf("a call relayed through desk %d ran the helper of desk %d", r.desk, k), d)
 				return
 			}
 		}
@@ -259,14 +273,27 @@ func c04lent(c *wk.Ctx, i int, rng *rand.Rand) {
 			c.Count("lent_barrier_errors", 1)
 		} else {
 			for k, h := range helpers {
-				if n := h.PokeCount(); n > issued[k]+1 {
-					detail["calls_issued"], detail["executions"] = issued[k]+1, n
-					c.Viol("lent", i, "cancel=executed/lent", fmt.Sprintf("poke() of the object lent to desk %d ran %d times for %d calls (some of them cancelled in flight)", k, n, issued[k]+1), detail)
+				want := issued[k] + 1
+				if shared { // one object behind every desk
+					if k > 0 {
+						continue
+					}
+					want = 0
+					for _, n := range issued {
+						want += n + 1
+					}
+				}
+				if n := h.PokeCount(); n > want {
+					detail["calls_issued"], detail["executions"] = want, n
+					c.Viol("lent", i, "cancel=executed/"+cfg, fmt.Sprintf("poke() of the object lent to desk %d ran %d times for %d calls (some of them cancelled in flight)", k, n, want), detail)
 					return
 				}
 				c.Count("cancelled_calls_to_client_hosted_objects", int64(issued[k]))
 			}
 		}
+	}
+	if shared {
+		c.Count("plans_lending_one_object_to_every_desk", 1)
 	}
 	c.Count("calls_relayed_to_client_hosted_objects", int64(ok))
 	c.Count("relayed_calls_answered_with_an_error", int64(errs))
